@@ -45,7 +45,7 @@ def LevelStatement (S : Schema) (ft : List (Name × Name)) (env : List Decl)
     (∀ d ∈ st.decls, d ∈ st'.decls) ∧ EnumInv st' ∧ (∀ tds, NamesHyp S tds → NameInv S tds st → NameInv S tds st') ∧
     ((∀ d ∈ st'.decls, d ∈ env) →
       (∃ tyB, ty = ptrUnless nn tyB ∧ LevelGood S env frag td subs tyB) ∧
-      (FragNames ft (env.map Decl.name) → enumConstsOK S = true →
+      (FragNames ft (env.map Decl.name) → enumValuesOK S = true →
         tyOK (env.map Decl.name) ty = true ∧ (StOK (env.map Decl.name) st → StOK (env.map Decl.name) st')))
 
 theorem genAt_composite {S : Schema} {n : Name} {td : TypeDef} (hl : S.lookup n = some td) (hc : isComposite td = true)
@@ -56,9 +56,9 @@ theorem genAt_composite {S : Schema} {n : Name} {td : TypeDef} (hl : S.lookup n 
        | .ok (fields, conds, st1) =>
          if conds.isEmpty then .ok (ptrUnless nonNull (.struct (sortFields (fields.map toGoField))), st1)
          else
-           .ok (ptrUnless nonNull (.named (n_sel ++ td.name ++ natDigits st1.count)),
+           .ok (ptrUnless nonNull (.named (n_sel ++ td.name ++ [95] ++ natDigits st1.count)),
              { st1 with
-               decls := st1.decls ++ [.sel (n_sel ++ td.name ++ natDigits st1.count) (sortFields (fields.map toGoField))
+               decls := st1.decls ++ [.sel (n_sel ++ td.name ++ [95] ++ natDigits st1.count) (sortFields (fields.map toGoField))
                  (actionsOf S td (tnField.getD []) conds)],
                count := st1.count + 1 })) := by
   cases td with
@@ -151,7 +151,7 @@ theorem genAt_enum {S : Schema} {n nm : Name} {vs : List Name} (hl : S.lookup n 
     genAt S n nonNull tnField st walk =
       .ok (ptrUnless nonNull (.named nm),
         if st.enums.contains nm then st
-        else { st with decls := st.decls ++ [.enum nm (vs.map fun v => (constName nm v, v))], enums := nm :: st.enums }) := by
+        else { st with decls := st.decls ++ [.enum nm (enumConsts nm vs)], enums := nm :: st.enums }) := by
   unfold genAt; simp only [hl]
 
 theorem keysOK_obj {ms : List JMember} (h : (Json.obj ms).keysOK = true) :
@@ -175,7 +175,7 @@ theorem member_step (henv : EnvOK env) (td : TypeDef) (hasTn : Bool) (s : Sel)
       (∀ d ∈ st.decls, d ∈ st1.decls) ∧ EnumInv st1 ∧ (∀ tds, NamesHyp S tds → NameInv S tds st → NameInv S tds st1) ∧
       (isFieldSel s = false → td.isObject = false → hasTn = true) ∧
       ((∀ d ∈ st1.decls, d ∈ env) → MemberGood S env frag td s e ∧
-        (FragNames ft (env.map Decl.name) → enumConstsOK S = true →
+        (FragNames ft (env.map Decl.name) → enumValuesOK S = true →
           isExported (fieldName e.key) = true ∧ tyOK (env.map Decl.name) e.ty = true ∧
           (StOK (env.map Decl.name) st → StOK (env.map Decl.name) st1))) := by
   cases s with
@@ -296,7 +296,7 @@ theorem member_step (henv : EnvOK env) (td : TypeDef) (hasTn : Bool) (s : Sel)
             ((∀ d ∈ st1.decls, d ∈ env) → (∀ v L, v.keysOK = true →
               wrapLeaves (specBase S frag (shape ftype false).2.1 subs) (shape ftype false).2.2 (shape ftype false).1 v = some L →
               Holds env (wrapSlices (shape ftype false).1 gen) v L) ∧
-              (FragNames ft (env.map Decl.name) → enumConstsOK S = true →
+              (FragNames ft (env.map Decl.name) → enumValuesOK S = true →
                 tyOK (env.map Decl.name) (wrapSlices (shape ftype false).1 gen) = true ∧
                 (StOK (env.map Decl.name) st → StOK (env.map Decl.name) st1))) := by
           cases hlb : S.lookup (shape ftype false).2.1 with
@@ -359,12 +359,12 @@ theorem member_step (henv : EnvOK env) (td : TypeDef) (hasTn : Bool) (s : Sel)
                   · simp only [hc, if_true]
                     exact ⟨hinv nm (by simpa using hc), fun d hd => hd, hinv, fun _ _ h => h⟩
                   · simp only [hc, Bool.false_eq_true, if_false]
-                    refine ⟨⟨vs.map fun v => (constName nm v, v), by simp⟩, fun d hd => by simp [hd], ?_,
+                    refine ⟨⟨enumConsts nm vs, by simp⟩, fun d hd => by simp [hd], ?_,
                       fun tds hN h => nameInv_add_enum hN h (Schema.lookup_mem hlb) (by simpa using hc) _⟩
                     intro m hm
                     simp only [List.mem_cons] at hm
                     rcases hm with rfl | hm
-                    · exact ⟨vs.map fun v => (constName m v, v), by simp⟩
+                    · exact ⟨enumConsts m vs, by simp⟩
                     · obtain ⟨cs, hcs⟩ := hinv m hm
                       exact ⟨cs, by simp [hcs]⟩
                 obtain ⟨⟨cs, hcs⟩, hmono, hinv', hnm⟩ := hdecl
@@ -392,7 +392,8 @@ theorem member_step (henv : EnvOK env) (td : TypeDef) (hasTn : Bool) (s : Sel)
                       · have hmemS := Schema.lookup_mem hlb
                         have := List.all_eq_true.mp hec _ hmemS
                         simp only at this
-                        simpa [declOK, List.map_map, Function.comp_def] using this
+                        simp only [declOK]
+                        exact (nodupB_iff _).mpr (enumConsts_nodup nm vs ((nodupB_iff _).mp this))
               | object a b c => simp [isComposite] at hcomp'
               | iface a b => simp [isComposite] at hcomp'
               | union a b => simp [isComposite] at hcomp'
@@ -425,7 +426,7 @@ theorem members_lemma (henv : EnvOK env) (td : TypeDef) (hasTn : Bool) :
         (∀ d ∈ st.decls, d ∈ st'.decls) ∧ EnumInv st' ∧ (∀ tds, NamesHyp S tds → NameInv S tds st → NameInv S tds st') ∧
         ((∃ s ∈ rest, isFieldSel s = false) → td.isObject = false → hasTn = true) ∧
         ((∀ d ∈ st'.decls, d ∈ env) → Forall2 (MemberGood S env frag td) rest es ∧
-          (FragNames ft (env.map Decl.name) → enumConstsOK S = true →
+          (FragNames ft (env.map Decl.name) → enumValuesOK S = true →
             (∀ e ∈ es, isExported (fieldName e.key) = true ∧ tyOK (env.map Decl.name) e.ty = true) ∧
             (StOK (env.map Decl.name) st → StOK (env.map Decl.name) st'))) := by
   intro rest
@@ -565,7 +566,7 @@ theorem level_statement (hS : schemaOK S = true) (henv : EnvOK env) (hfrag : Fra
           obtain ⟨cs, hcs⟩ := hinv' m hm
           exact ⟨cs, by simp [hcs]⟩
         · intro henv'
-          have hsel : Decl.sel (n_sel ++ td.name ++ natDigits st1.count) (sortFields (fields.map toGoField))
+          have hsel : Decl.sel (n_sel ++ td.name ++ [95] ++ natDigits st1.count) (sortFields (fields.map toGoField))
               (actionsOf S td ((typenameFieldOf subs).getD []) conds) ∈ env := henv' _ (by simp)
           have hlook := henv _ hsel
           simp only [Decl.name] at hlook
